@@ -125,6 +125,7 @@ def impl_render(item):
         opts = {'join_lists': bool(lay[0]), 'join_dict_items': bool(lay[1])}
         out = io.StringIO()
         pr = gp.Printer(out, ansi_color=True, quiet=True, options=opts)
+        gp.colorama.deinit()      # Printer(ansi_color=True) calls colorama.init(), which wraps sys.stdout once more
         gjson.JSONFormatter.DEFAULT_INSTANCE.print(pr, d)
         entry['runs'] = runs_of(decode(out.getvalue()))
         out2 = io.StringIO()
@@ -390,7 +391,7 @@ def run_items(run, wd, items, st, tag):
     if st['models_ok']:
         evals.append('bad_cases corr_C06')
         header += MODEL_HEADER
-    chunk = max(10, -(-len(terms) // (2 * common.NPROC)))
+    chunk = max(10, min(250, -(-len(terms) // (2 * common.NPROC))))
     bad, err = common.coq_eval_cases(wd, 'cases_' + tag, header, terms, evals, chunk=chunk)
     common.log(f'C06 {tag}: {len(items)} diffs, {len(terms)} renders, implementation {t1 - t0:.1f}s, '
                f'Coq evaluation {time.time() - t1:.1f}s')
@@ -404,6 +405,31 @@ def run_items(run, wd, items, st, tag):
             out['kf'][k] = set(bad[5 + j])
         out['bad_corr'] = bad[5 + len(KF_CLASSES)] if st['models_ok'] else []
     return out
+
+
+BATCH = 1000      # diffs per evaluation batch (4 renders each)
+
+
+def run_all(run, wd, items, st, tag, findings, stats):
+    """run_items + judge over batches; aggregated counts"""
+    agg = {'n_cases': 0, 'loads_ok': 0, 'bad_corr': [], 'err': None, 'clauses': [0, 0, 0], 'out_domain': 0,
+           'kf': {k: 0 for k in KF_CLASSES}, 'samples': []}
+    for k in range(0, len(items), BATCH):
+        out = run_items(run, wd, items[k:k + BATCH], st, f'{tag}{k // BATCH}')
+        if out['err'] and not agg['err']:
+            agg['err'] = out['err']
+        judge(run, out, findings, stats)
+        agg['n_cases'] += len(out['keep'])
+        agg['loads_ok'] += out['loads_ok']
+        agg['bad_corr'] += [out['keep'][i] for i in out['bad_corr']]
+        for j in range(3):
+            agg['clauses'][j] += len(out['clauses'][j])
+        agg['out_domain'] += len(out['out_domain'])
+        for c in KF_CLASSES:
+            agg['kf'][c] += len(out['kf'][c])
+        if not agg['samples']:
+            agg['samples'] = [{'a': it['a'], 'b': it['b'], 'opts': it['opts'], 'lay': e['lay']} for it, _, e in out['keep'][:3]]
+    return agg
 
 
 def replay_obj(it, r, entry, why, extra=None):
@@ -449,26 +475,24 @@ def check(tier, seed):
         findings = open_findings()
         stats = {'known': {}}
         items = corpus_items() + generate(tier, rng)
-        out = run_items(run, wd, items, st, 'c')
-        if out['err']:
-            run.violation({'kind': 'case-evaluation-failed', 'error': out['err']}, no_input=True)
-        judge(run, out, findings, stats)
-        bad_corr = list(out['bad_corr'])
-        first_corr = out['keep'][bad_corr[0]] if bad_corr else None
-        n_cases = len(out['keep'])
-        loads_ok = out['loads_ok']
+        agg = run_all(run, wd, items, st, 'c', findings, stats)
+        if agg['err']:
+            run.violation({'kind': 'case-evaluation-failed', 'error': agg['err']}, no_input=True)
+        bad_corr = list(agg['bad_corr'])
+        first_corr = bad_corr[0] if bad_corr else None
+        n_cases = agg['n_cases']
+        loads_ok = agg['loads_ok']
         if (st['broken'] or bad_corr) and not run.violations:
             # the tie is broken and no case failed: search harder (bigger generator, more seeds)
             for s2 in range(2):
                 more = generate('thorough' if s2 else tier, random.Random(seed * 1000 + 23 + s2))
                 if s2:
                     more = more[:1500]
-                o2 = run_items(run, wd, more, st, f's{s2}')
-                judge(run, o2, findings, stats)
-                n_cases += len(o2['keep'])
-                loads_ok += o2['loads_ok']
-                if o2['bad_corr'] and first_corr is None:
-                    first_corr = o2['keep'][o2['bad_corr'][0]]
+                a2 = run_all(run, wd, more, st, f's{s2}_', findings, stats)
+                n_cases += a2['n_cases']
+                loads_ok += a2['loads_ok']
+                if a2['bad_corr'] and first_corr is None:
+                    first_corr = a2['bad_corr'][0]
                 if run.violations:
                     break
             if not run.violations:
@@ -488,19 +512,19 @@ def check(tier, seed):
         run.cov['renders'] = n_cases
         run.cov['diffs'] = len(items)
         run.cov['corr_failures'] = len(bad_corr)
-        run.cov['holds_failures_by_clause'] = {'first': len(out['clauses'][0]), 'second': len(out['clauses'][1]),
-                                               'marks': len(out['clauses'][2])}
+        run.cov['holds_failures_by_clause'] = {'first': agg['clauses'][0], 'second': agg['clauses'][1],
+                                               'marks': agg['clauses'][2]}
         run.cov['json_loads_agree'] = f'{loads_ok} of {n_cases} (delimiter repair + json.loads of both projections; not the verdict)'
-        run.cov['cases_outside_theorem_domain'] = len(out['out_domain'])
+        run.cov['cases_outside_theorem_domain'] = agg['out_domain']
         run.cov['known_finding_cases'] = {k: len(v) for k, v in stats['known'].items()}
-        run.cov['kf_class_sizes'] = {k: len(v) for k, v in out['kf'].items()}
+        run.cov['kf_class_sizes'] = agg['kf']
         run.cov['rule'] = ('document pairs: fixed list (empty containers, adjacent remove+insert, container<->scalar, D4/D16 '
                            'shapes, strings with quote, backslash, ~ + - > space, control characters, U+0336/U+031F, BMP, '
                            'astral, lone surrogates) + seeded random documents (scriptlib generator and a string-heavy one) '
                            'paired by mutation; x 3 dictionary strategies (auto, match, none) x 4 layouts; list mode mostly '
                            'on; thorough adds all ordered pairs of a tiny document grammar. non-trivial = documents differ '
                            'and one is a container; distinct by (a, b, options, layout)')
-        run.cov['samples'] = [{'a': it['a'], 'b': it['b'], 'opts': it['opts'], 'lay': e['lay']} for it, _, e in out['keep'][:3]]
+        run.cov['samples'] = agg['samples']
         run.assumptions = [
             'the decoder (SGR background/foreground state + combining marks following a character) is trusted to report '
             'what a terminal shows; it contains no property logic and is exercised on every case by corr_C06',
